@@ -30,7 +30,10 @@ def main():
     if not a.replay:
         import glob
         for f in glob.glob(os.path.join(common.REPLAYS, a.prop + "_*.json")):
-            os.remove(f)          # replay files of earlier runs are stale
+            try:
+                os.remove(f)      # replay files of earlier runs are stale
+            except OSError:
+                pass              # a concurrent run of the same check removed it first
     if a.replay:
         obj = json.load(open(a.replay))
         return mod.replay(ctx, obj)
